@@ -5,6 +5,7 @@ import (
 	"fmt"
 	"os"
 	"path/filepath"
+	"sort"
 	"testing"
 
 	"pgregory.net/rapid"
@@ -17,7 +18,7 @@ import (
 	"go.etcd.io/bbolt/verifh/refdec"
 )
 
-const c11Rule = "base files = end states of generated histories whose last write activity was a successful commit (page sizes 1024..65536, equal to and different from the OS page size; freelist persisted or not). Damage applied in place and reverted: every byte position 0..63 of the meta structure of either meta page x replacement byte values (quick: 8 generated values per position, thorough: all 255); partial overwrites of the OLDER slot by a would-be newer valid meta (every prefix length 1..80, results identical to the old or the new page skipped); one damaged byte in each meta; truncated files, random bytes, foreign magic/version. Oracle: one meta damaged => Open (read-only in place; read-write on a copy for a sample) succeeds, reports the real page size, the dump equals the model of the surviving meta's txid, Tx.Check is clean; both damaged / too small / not a database => Open returns an error and does not panic. Non-trivial = the damaged meta was the newer one (the presented state falls back to the previous, different version) or meta 0 is damaged while the page size differs from the OS page size. Distinct = (base hash, slot, position, value) / (base hash, kind, parameter)."
+const c11Rule = "base files = end states of generated histories whose last write activity was a successful commit (page sizes 1024..65536, equal to and different from the OS page size; freelist persisted or not). Damage applied in place and reverted: every byte position 0..63 of the meta structure of either meta page x replacement byte values (quick: about 18 values per position - every single-bit flip, shifts, neighbours and extremes of the stored byte plus 4 generated ones; thorough: all 255); partial overwrites of the OLDER slot by a would-be newer valid meta (every prefix length 1..80, results identical to the old or the new page skipped); one damaged byte in each meta; truncated files, random bytes, foreign magic/version. Oracle: one meta damaged => Open (read-only in place; read-write on a copy for a sample) succeeds, reports the real page size, the dump equals the model of the surviving meta's txid, Tx.Check is clean; both damaged / too small / not a database => Open returns an error and does not panic. Non-trivial = the damaged meta was the newer one (the presented state falls back to the previous, different version) or meta 0 is damaged while the page size differs from the OS page size. Distinct = (base hash, slot, position, value) / (base hash, kind, parameter)."
 
 type c11Base struct {
 	dir      string
@@ -287,8 +288,28 @@ func TestC11(t *testing.T) {
 						run(c11Doc{Kind: "byte", Slot: slot, Pos: pos, Val: val})
 					}
 				} else {
-					for i := 0; i < 8; i++ {
-						run(c11Doc{Kind: "byte", Slot: slot, Pos: pos, Val: rapid.IntRange(0, 255).Draw(rt, "val")})
+					// structured replacement values (bit flips, shifts, neighbours, extremes of the stored byte)
+					// plus generated ones: damage that keeps a field "plausible" is the interesting kind
+					orig := int(b.data[slot*b.ps+refdec.PageHeaderSize+pos])
+					vals := map[int]bool{0: true, 0xff: true, (orig << 1) & 0xff: true, orig >> 1: true, (orig + 1) & 0xff: true, (orig + 255) & 0xff: true}
+					for bit := 0; bit < 8; bit++ {
+						vals[orig^(1<<bit)] = true
+					}
+					if orig == 0 {
+						for bit := 0; bit < 8; bit++ {
+							vals[1<<bit] = true
+						}
+					}
+					for i := 0; i < 4; i++ {
+						vals[rapid.IntRange(0, 255).Draw(rt, "val")] = true
+					}
+					keys := make([]int, 0, len(vals))
+					for v := range vals {
+						keys = append(keys, v)
+					}
+					sort.Ints(keys)
+					for _, v := range keys {
+						run(c11Doc{Kind: "byte", Slot: slot, Pos: pos, Val: v})
 					}
 				}
 			}
